@@ -97,6 +97,20 @@ CLAIMED["C14"] = (
     "DESIGN.md §3 C14",
     "std str slicing panics on non-boundaries (so a wrong byte count cannot produce a bad range silently).")
 
+CLAIMED["C04"] = (
+    "sibling cross-check by switch-arm summaries over MIR: constant folder vs (code generator o interpreter) operator tables incl. operand order; operand-provenance rule for the short-circuit arms; Result-disposition rule in the folder",
+    "Static rule check: for each of the 17 BinOpKind and 8 CompareOpKind variants the operator function, operand "
+    "order and negation extracted from ast::eval_binop/eval_compare equal those of the interpreter arm of the "
+    "instruction codegen emits for it (incl. CompareAndPreserve for chained comparisons); the folder's and/or arms "
+    "return a clone of the operand selected by left.is_true() exactly as JumpIfFalseOrPop/JumpIfTrueOrPop leave it; "
+    "operator Results in the folder are only `.ok()`-ed and LoadConst is emitted only on Some (errors are deferred "
+    "to run time); `not` and container literals use the same truthiness / constructors on both sides.  This "
+    "decides literal/variable transparency at the level 'both evaluators run the same function on the same "
+    "operands' for all operators and all operand values; it does not decide anything about the operator functions "
+    "themselves (that is C08).",
+    "DESIGN.md §3 C04",
+    "Keyword-argument constant handling in codegen (static kwargs) is not covered.")
+
 NOT_APPLICABLE = {
 }
 
